@@ -366,10 +366,17 @@ class GaussianMerge(Compiler):
         while removed:
             removed = False
             group = [op] + merged_gaussian_ops
-            for gaussian_op in merged_gaussian_ops:
-                outside = [pre for pre in nx.ancestors(self.DAG, gaussian_op) if pre not in group]
-                if any(nx.has_path(self.DAG, member, pre) for pre in outside for member in group):
-                    merged_gaussian_ops.remove(gaussian_op)
+            for member in group:
+                outside = [pre for pre in nx.ancestors(self.DAG, member) if pre not in group]
+                sources = [
+                    other
+                    for other in group
+                    if other is not member and any(nx.has_path(self.DAG, other, pre) for pre in outside)
+                ]
+                if sources:
+                    # ``member`` has to run after an unmerged operation that follows ``sources``:
+                    # they cannot be in the same merge (op itself always stays)
+                    merged_gaussian_ops.remove(member if member is not op else sources[0])
                     removed = True
                     break
         return merged_gaussian_ops
